@@ -161,6 +161,10 @@ def _point_witness(ctx: Ctx, fn: FunctionInfo, integer: bool):
     params = [p for p in fn.params if p != "self"]
     bounds = [(0, 1), (0, 2000), (-5, 5), (3, 3), (0, 10 ** 6), (-7, 3000)]
     genes = [0, 1, 2, 1023, 1024, 1025, 5000, 2 ** 31 + 11, 2 ** 63 - 1]
+    if not integer:
+        # floats: ordinary and degenerate intervals (min == max on constants that are not dyadic: rounding must not leave the interval)
+        bounds = [(0.0, 1.0), (-5.0, 5.0), (1e-3, 1e3), (1.7, 1.7), (1 / 3, 1 / 3), (0.1, 0.1), (2.718281828459045, 2.718281828459045), (0.1, 0.30000000000000004)]
+        genes = [0, 1, 137, 333, 500, 667, 863, 999, 1024, 5003]
     for lo, hi in bounds:
         for g in genes:
             def call_model(it, call, env, args, kwargs, g=g):
@@ -173,7 +177,7 @@ def _point_witness(ctx: Ctx, fn: FunctionInfo, integer: bool):
                     return (g % 1000) / 1000.0 if nm == "random" or len(args) < 2 else args[0] + (args[1] - args[0]) * ((g % 1000) / 1000.0)
                 return None
             it = Interp(ctx.prog, fn.cls, lambda *_: None, call_model, max_depth=4, max_traces=8)
-            env = {"self": Sym("self"), params[0]: lo if integer else float(lo), params[1]: hi if integer else float(hi)}
+            env = {"self": Sym("self"), params[0]: lo, params[1]: hi}
             try:
                 runs = it.run(fn, env)
             except Budget:
@@ -246,8 +250,14 @@ def check_bounded(ctx: Ctx, rule: str, fn: FunctionInfo, integer: bool, cls=None
             ctx.ob(rule, fn, o.node, f"result within [min, max] on path [{cond}]", None, f"non-numeric result {v!r}")
             continue
         f = o.env.facts
-        verdict_ob(ctx, rule, fn, o.node, f"result >= min on path [{cond}]", prove_cmp(f, v, ast.GtE(), lo))
-        verdict_ob(ctx, rule, fn, o.node, f"result <= max on path [{cond}]", prove_cmp(f, v, ast.LtE(), hi))
+        v_lo, v_hi = prove_cmp(f, v, ast.GtE(), lo), prove_cmp(f, v, ast.LtE(), hi)
+        if (v_lo.status not in (HOLDS, FAILS) or v_hi.status not in (HOLDS, FAILS)) and (w := _point_witness(ctx, fn, integer)) is not None:
+            ctx.ob(rule, fn, o.node, f"result within [min, max] on path [{cond}]", False,
+                   f"for bounds [{w['min']}, {w['max']}] and an inner draw of {w['gene']} the result is {w['result']!r}: outside the bounds"
+                   + (" (floating-point rounding leaves a degenerate interval)" if w['min'] == w['max'] else ""), witness=w)
+            continue
+        verdict_ob(ctx, rule, fn, o.node, f"result >= min on path [{cond}]", v_lo)
+        verdict_ob(ctx, rule, fn, o.node, f"result <= max on path [{cond}]", v_hi)
     for node, desc, vd in model.pre:
         # inner draws: preconditions that cannot be established are listed (not violations: they concern
         # opaque quantities such as round(log10(width)))
